@@ -92,7 +92,10 @@ def run_check(args):
         d["outcomes"] += n
         if n > 0:
             d["reachable"] += 1
-    vacuous = [c for c, d in reach.items() if d["outcomes"] == 0 and not any(rr.get("crash") for rr in results if rr["contract"] == c)]
+    # (a contract none of whose cases could be followed -- every path ended in Unsupported / a stand-in gap -- is UNDECIDED,
+    #  already reported as such; vacuous means: nothing was undecided and still nothing ran)
+    und_contracts = {u["contract"] for u in undecided}
+    vacuous = [c for c, d in reach.items() if d["outcomes"] == 0 and c not in und_contracts and not any(rr.get("crash") for rr in results if rr["contract"] == c)]
 
     # --- failures: replay ---------------------------------------------------------------------
     violations = []
